@@ -83,16 +83,18 @@ class MPTask(ac.Task):
         return "%d,%d,%s|%s" % (self.pool, self.send, otok(self.opts), self.behtok())
 
 
-def script_line(pools, tasks, horizon, gcs=()):
-    """gcs: virtual instants at which the harness forces runtime.GC() twice while the script goes on"""
-    return "antsmp H=%d %s%d %s %s" % (horizon, "gc=%s " % ",".join(str(g) for g in gcs) if gcs else "", len(pools),
-                                      " ".join(p.tok() for p in pools), " ".join(t.tok() for t in tasks))
+def script_line(pools, tasks, horizon, gcs=(), drops=()):
+    """gcs: virtual instants at which the harness forces runtime.GC() twice while the script goes on;
+    drops: (pool, instant): the harness drops its reference to that pool (no Send to it follows) and forces two GCs"""
+    return "antsmp H=%d %s%s%d %s %s" % (horizon, "gc=%s " % ",".join(str(g) for g in gcs) if gcs else "",
+                                        "drop=%s " % ",".join("%d:%d" % d for d in drops) if drops else "", len(pools),
+                                        " ".join(p.tok() for p in pools), " ".join(t.tok() for t in tasks))
 
 
 def parse_script(line):
     t = line.split()
     assert t[0] == "antsmp" and t[1].startswith("H=")
-    if t[2].startswith("gc="):
+    while t[2].startswith("gc=") or t[2].startswith("drop="):
         t = t[:2] + t[3:]
     np_ = int(t[2])
     pools = []
@@ -196,7 +198,15 @@ def gen_script(rng, style):
     if rng.chance(1, 2):
         lo, hi = pools[0].create, tasks[-1].send + 2 * MS
         gcs = sorted({jitter(rng.range(lo, hi)) + 4 for _ in range(rng.range(1, 2))})
-    return pools, tasks, horizon_of(pools, tasks), gcs
+    # "drop the pool, keep the Tasks": right after the last Send to a pool (its tasks still queued / running) the harness
+    # forgets the pool and forces two GCs; instants = 12 mod 16
+    drops = []
+    if rng.chance(1, 3):
+        p = rng.below(np_)
+        mine = [t.send for t in tasks if t.pool == p]
+        if mine:
+            drops.append((p, max(mine) + rng.choice([16, 16, 160, jitter(rng.range(0, MS))]) + 12))
+    return pools, tasks, horizon_of(pools, tasks), gcs, drops
 
 
 def jitter(x):
